@@ -353,6 +353,8 @@ def gen_permeate(rng, mode, mixture, t_feed, comp, model="NRTL"):
     if mode == "V":
         return None, None
     if mode == "T":
+        if rng.random() < 0.1:
+            return rng.uniform(60.0, 120.0), None  # a cryogenic trap (liquid nitrogen, 77 K): still a stated permeate temperature
         return rng.uniform(120.0, t_feed), None
     if mode == "Tnear":
         if rng.random() < 0.03:
@@ -532,6 +534,8 @@ class FluxCase:
         if self.from_membrane and rng.random() < 0.25:
             # exactly at an experiment's temperature (the branch that returns the measured value)
             self.t_feed = rng.choice(self.membrane.ideal_experiments.experiments).temperature
+        if rng.random() < 0.05:
+            self.pv = retargeted(rng, self.membrane, self.mix)
         if self.from_membrane:
             self.p1 = self.membrane.get_permeance(self.t_feed, self.mix.first_component)
             self.p2 = self.membrane.get_permeance(self.t_feed, self.mix.second_component)
@@ -565,6 +569,23 @@ class FluxCase:
         if self.from_membrane:
             d["membrane"] = describe_membrane(self.membrane)
         return d
+
+
+def retargeted(rng, membrane, mixture):
+    """a Pervaporation object that was built for, and used with, ANOTHER membrane and mixture and is then re-pointed to the
+    given ones by plain attribute assignment (a user working through several systems with one object)"""
+    from pyvaporation.pervaporation import Pervaporation
+
+    other_mix = getattr(Mixtures, rng.choice([n for n in BUILTIN_MIXTURES if getattr(Mixtures, n) is not mixture]))
+    other_mem = gen_membrane(rng, other_mix)
+    pv = Pervaporation(other_mem, other_mix)
+    try:
+        pv.calculate_partial_fluxes(330.0, Composition(p=0.4, type=rng.choice(["weight", "molar"])), 1e-4)
+    except Exception:
+        pass
+    pv.membrane = membrane
+    pv.mixture = mixture
+    return pv
 
 
 def refmodel_permeance_kg(permeance, component):
